@@ -70,7 +70,7 @@ func (in *vfGWInst) track(evFull string) {
 		delete(in.announced[f[1]], f[2])
 	case "disc", "inclose", "inreset", "inopen", "outreset", "outclose":
 		in.announced[f[1]] = map[string]bool{}
-	case "lpub", "lpubbatch":
+	case "lpub", "lpubbatch", "lpubgo":
 		if in.lpubDone == nil {
 			in.lpubDone = map[string]bool{}
 		}
@@ -127,7 +127,7 @@ func (in *vfGWInst) Enabled() []string {
 			ok = fmt.Sprint(cur) != f[2]
 		case "bl":
 			ok = !in.last.Blacklst[f[1]]
-		case "lpub", "lpubbatch":
+		case "lpub", "lpubbatch", "lpubgo":
 			ok = !in.lpubDone[f[2]] // labels of local publications are unique
 		case "blimpl":
 			ok = !in.last.Blacklst[f[1]]
